@@ -136,7 +136,21 @@ def mk_typed(t):
     raise ValueError(k)
 
 
+from dataclasses import dataclass as _dataclass
+from pycardano.plutus import PlutusData as _PlutusData
+
+
+@_dataclass(unsafe_hash=True)
+class _KeyCls(_PlutusData):
+    CONSTR_ID = 0
+    a: int
+    b: bytes
+
+
 def mk_datum(form, d):
+    if form == 'objkeydict':
+        # a bare dict datum keyed by a constructor WITH fields (Map Credential Integer): hashed directly, shipped nested
+        return {_KeyCls(d[0], H(d[1])): d[2]}
     if form == 'typed':
         return mk_typed(d)
     if form == 'raw':
